@@ -282,6 +282,47 @@ def spaces(tier, variant, seed):
                 for k, (i, j) in enumerate(prs):
                     yield ("pin", un, vn, k, i, j)
 
+        # seams of the chunked schoolbook path (un > 500, vn < KARATSUBA): every subset of seven "features" placed around each 500-limb
+        # block boundary K (runs of vn all-ones limbs just below / at / above K, single ones at K-1, K, K+vn, an all-ones limb at K+vn):
+        # a carry that must ripple out of the add-back of the saved triangle only exists for such contents
+        def seam_u(un, vn, mask):
+            u = 1 << (64 * (un - 1))
+            for K in range(500, un - vn - 1, 500):
+                if mask & 1:
+                    u |= al.ones(vn) << (64 * (K - vn))
+                if mask & 2:
+                    u |= 1 << (64 * K)
+                if mask & 4:
+                    u |= 1 << (64 * (K + vn))
+                if mask & 8:
+                    u |= al.ones(vn) << (64 * K)
+                if mask & 16:
+                    u |= al.M << (64 * (K + vn))
+                if mask & 32:
+                    u |= 1 << (64 * (K - 1))
+                if mask & 64 and K - 2 * vn >= 0:
+                    u |= al.ones(vn) << (64 * (K - 2 * vn))
+            return u & al.ones(un)
+
+        def seam_v(vn, j):
+            top = 64 * vn
+            return [al.ones(vn), al.ones(vn) - 1, 1 << (top - 1), (1 << (top - 1)) + 1, al.PAT(vn, 5)["dense"] | (1 << (top - 1)), (al.ones(vn) >> 1) | 1][j]
+
+        def seam_cases(blk):
+            cfg, un, vn = blk
+            for mask in range(128):
+                for j in range(6):
+                    yield (cfg, un, vn, mask, j)
+
+        def seam_one(case, R):
+            cfg, un, vn, mask, j = case
+            set_cfg(cfg)
+            nz = do_mul(R, "mpn_mul", fmul, un, vn, seam_u(un, vn, mask), seam_v(vn, j), "mul")
+            return (cfg, un, vn, mask, j) if nz else None
+
+        sp.append(Space("pin_chunk_seams", [("pin", un, vn) for un in ((1001, 1200) if quick else (1001, 1200, 1499, 1501, 2003)) for vn in sorted({1, 2, 3, 5, 8, 15, kara - 1, kara}) if 1 <= vn <= kara],
+                        seam_cases, seam_one, "chunked schoolbook (un in {1001,1200,..}, vn < KARATSUBA): 128 feature subsets around every 500-limb block boundary x 6 multiplier patterns"))
+
         sp.append(Space("pin_bands", bb, band_cases, mul_one,
                         "mpn_mul: every shape with un+vn within +-2 of 2*TOOM3/TOOM4/TOOM8H/FFT_FULL and 6*TOOM4 (values from the tree's gmp-mparam.h), "
                         "un in {499..502,999..1002,..} x vn<=KARA+1 (chunked schoolbook), 3*vn around FFT_FULL"))
